@@ -222,6 +222,7 @@ func init() {
 		}
 		if 1 != len(args) {
 			qsBrokerShutdown(&rep)
+			qsBlockedWriter(&rep)
 		}
 		json.NewEncoder(os.Stdout).Encode(rep)
 		return 0
@@ -347,4 +348,120 @@ func quietSpellReplay(raw json.RawMessage) int {
 	}
 	fmt.Println("not reproduced")
 	return 0
+}
+
+// qsInputLog counts the input records of the log.
+type qsInputLog struct {
+	mu sync.Mutex
+	n  int
+}
+
+// qsInputLogH is a view of the log with the attributes a logger was given.
+type qsInputLogH struct {
+	l     *qsInputLog
+	input bool
+}
+
+func (h qsInputLogH) Enabled(context.Context, slog.Level) bool { return true }
+func (h qsInputLogH) WithGroup(string) slog.Handler            { return h }
+func (h qsInputLogH) WithAttrs(as []slog.Attr) slog.Handler {
+	for _, a := range as {
+		if iobroker.LKDirection == a.Key && "input" == a.Value.String() {
+			h.input = true
+		}
+	}
+	return h
+}
+func (h qsInputLogH) Handle(_ context.Context, r slog.Record) error {
+	if iobroker.LMShellIO != r.Message {
+		return nil
+	}
+	input := h.input
+	r.Attrs(func(a slog.Attr) bool {
+		if iobroker.LKDirection == a.Key && "input" == a.Value.String() {
+			input = true
+		}
+		return true
+	})
+	if input {
+		h.l.mu.Lock()
+		h.l.n++
+		h.l.mu.Unlock()
+	}
+	return nil
+}
+
+// qsSlowWriter is a shell's input stream that takes its time over a write.
+type qsSlowWriter struct {
+	release chan struct{}
+	mu      sync.Mutex
+	got     []string
+}
+
+func (w *qsSlowWriter) Write(p []byte) (int, error) {
+	<-w.release
+	w.mu.Lock()
+	w.got = append(w.got, string(p))
+	w.mu.Unlock()
+	return len(p), nil
+}
+
+// qsBlockedWriter: C11's "every line delivered has exactly one record", with
+// time passing: the shell's input stream accepts a line only after a minute
+// (a congested link, a busy shell).
+func qsBlockedWriter(rep *qsReport) {
+	c := qsCase{Flavour: "vclock", Kind: "slow-input-stream", Spell: "1m0s"}
+	vtime.Reset(time.Now())
+	ich := make(chan string, 4)
+	och := make(chan opshell.CLine, 256)
+	b, err := iobroker.New(ich, och)
+	if nil != err {
+		ev.Broken("%s", err)
+	}
+	ctx, cancel := context.WithCancel(context.Background())
+	doRet := make(chan error, 1)
+	go func() { doRet <- b.Do(ctx) }()
+	lh := &qsInputLog{}
+	w := &qsSlowWriter{release: make(chan struct{})}
+	sctx, scancel := context.WithCancel(context.Background())
+	done := make(chan struct{})
+	go func() { defer close(done); b.ConnectIn(sctx, slog.New(qsInputLogH{l: lh}), "quiet", w, "k") }()
+	for ok, deadline := false, time.After(hworld.Watchdog); !ok; {
+		select {
+		case cl := <-och:
+			ok = strings.Contains(cl.Line, "Input connected")
+		case <-deadline:
+			ev.Broken("quiet-spell worker: the input stream never attached")
+		}
+	}
+	ich <- "id"
+	for i := 0; i < 20; i++ {
+		time.Sleep(2 * time.Millisecond)
+		rep.Firings += vtime.AdvanceN(3*time.Second, func() { time.Sleep(2 * time.Millisecond) }, qsMaxFirings)
+	}
+	close(w.release) /* Now the stream takes what it was given. */
+	time.Sleep(20 * time.Millisecond)
+	scancel()
+	select {
+	case <-done:
+	case <-time.After(hworld.Watchdog):
+	}
+	cancel()
+	select {
+	case <-doRet:
+	case <-time.After(hworld.Watchdog):
+	}
+	time.Sleep(5 * time.Millisecond)
+	w.mu.Lock()
+	delivered := len(w.got)
+	w.mu.Unlock()
+	lh.mu.Lock()
+	recs := lh.n
+	lh.mu.Unlock()
+	if delivered != recs {
+		rep.Viols = append(rep.Viols, qsViol{Prop: "C11", Sig: "quiet-spell/input-records-differ", Case: c,
+			What: fmt.Sprintf("an input stream that took a minute to accept the line it was given: %d line(s) were delivered to the shell in the end, the log has %d input record(s)", delivered, recs)})
+	}
+	rep.Scenarios++
+	rep.TimersArmed += vtime.Created()
 }
